@@ -661,27 +661,45 @@ func sharedBufferHistories(rep *Report, rng *RNG, g lint.Registry, objs []*Obj, 
 		rs, p := lintObj(so, g)
 		return rs, p, true
 	}
-	compare := func(o *Obj, what string) {
-		rsS, pS, ok := lintShared(o)
-		if !ok {
-			return
+	// the private-copy answers are computed first, for the whole sequence; the shared-buffer pass then runs with
+	// nothing in between (an interleaved private lint would refresh whatever a linter remembers)
+	type privRes struct {
+		rs *zlint.ResultSet
+		p  string
+	}
+	passes := func(seq []*Obj, what string) {
+		priv := make([]privRes, len(seq))
+		for i, o := range seq {
+			if c := o.reparse(); c != nil {
+				priv[i].rs, priv[i].p = lintObj(c, g)
+			} else {
+				priv[i].p = "unparseable"
+			}
 		}
-		priv := o.reparse()
-		if priv == nil {
-			return
-		}
-		rsP, pP := lintObj(priv, g)
-		rep.Evaluations++
-		rep.count("shared-buffer:" + what)
-		if pS != pP {
-			rep.violate(Violation{"C05", fmt.Sprintf("%s linted from a re-used read buffer panics differently than linted from its own bytes (%q vs %q)", o.Name, pS, pP), "shared-buffer:panic", replayOf(o, nil)})
-			return
-		}
-		if pS != "" || rsS == nil || rsP == nil {
-			return
-		}
-		if d, ok := sameResults(rsP, rsS); !ok {
-			rep.violate(Violation{"C05", fmt.Sprintf("%s linted from a read buffer that held another object before gives a different result than linted from its own bytes: %s", o.Name, d), "shared-buffer:" + lintNameOf(d), replayOf(o, map[string]interface{}{"diff": d})})
+		for i, o := range seq {
+			if priv[i].p == "unparseable" {
+				continue
+			}
+			rsS, pS, ok := lintShared(o)
+			if !ok {
+				continue
+			}
+			rep.Evaluations++
+			rep.count("shared-buffer:" + what)
+			if pS != priv[i].p {
+				rep.violate(Violation{"C05", fmt.Sprintf("%s linted from a re-used read buffer panics differently than linted from its own bytes (%q vs %q)", o.Name, pS, priv[i].p), "shared-buffer:panic", replayOf(o, nil)})
+				continue
+			}
+			if pS != "" || rsS == nil || priv[i].rs == nil {
+				continue
+			}
+			if d, ok := sameResults(priv[i].rs, rsS); !ok {
+				extra := map[string]interface{}{"diff": d}
+				if i > 0 {
+					extra["previous_in_buffer_der_hex"] = hexs(seq[i-1].DER)
+				}
+				rep.violate(Violation{"C05", fmt.Sprintf("%s linted from a read buffer that held another object before gives a different result than linted from its own bytes: %s", o.Name, d), "shared-buffer:" + lintNameOf(d), replayOf(o, extra)})
+			}
 		}
 	}
 	// kit certificates of one layout: same lengths everywhere, different content
@@ -720,9 +738,11 @@ func sharedBufferHistories(rep *Report, rng *RNG, g lint.Registry, objs []*Obj, 
 		rounds = 12
 	}
 	for r := 0; r < rounds; r++ {
+		var seq []*Obj
 		for _, i := range rng.Perm(len(kit)) {
-			compare(kit[i], "kit")
+			seq = append(seq, kit[i])
 		}
+		passes(seq, "kit")
 	}
 	// corpus objects followed by length-preserving edits of themselves
 	nobj := 120
@@ -731,7 +751,7 @@ func sharedBufferHistories(rep *Report, rng *RNG, g lint.Registry, objs []*Obj, 
 	}
 	for i := 0; i < nobj && i < len(objs); i++ {
 		o := objs[(i*5+3)%len(objs)]
-		compare(o, "corpus")
+		seq := []*Obj{o}
 		for k := 0; k < 4; k++ {
 			der := append([]byte{}, o.DER...)
 			for f := 0; f < 1+rng.Intn(2); f++ {
@@ -739,9 +759,9 @@ func sharedBufferHistories(rep *Report, rng *RNG, g lint.Registry, objs []*Obj, 
 				der[p] ^= byte(1 << uint(rng.Intn(8)))
 			}
 			if m := parseObj(o.Kind, o.Name+"+flip", der); m != nil {
-				compare(m, "flip")
-				compare(o, "corpus-again")
+				seq = append(seq, m, o)
 			}
 		}
+		passes(seq, "corpus+flips")
 	}
 }
